@@ -287,9 +287,8 @@ def run_search(factory, params_list, bound, workers=16, seed=0, budget_per_subtr
         for kind, text, sig in ex.violations:
             viols.append({'kind': kind, 'text': text, 'sig': sig, 'params': params,
                           'choices': list(ex.choices), 'dev': 0})
-        if bound > 0:
-            for p in alternatives(ex, 0, bound):
-                items.append((params, p))
+        for p in alternatives(ex, 0, bound):
+            items.append((params, p))
     if items:
         _JOB.update(factory=factory, bound=bound, budget=budget_per_subtree, sig_of=None)
         chunks = parallel.split(items, workers * 8)
